@@ -28,10 +28,11 @@ Proof. exact stop_bound_lemma. Qed.
 Print Assumptions C18_stop_terminates_within_bound.
 
 (* every wait the real client passes after the stop - idle, waiting for an ACK, sending or re-sending on the
-   session the stop signal aborts, connecting, retry wait - has a stop edge: the client needs no tick *)
+   session the stop signal aborts, connecting, retry wait, and (with the repair caaa160) on a session that became
+   active after the signal - has a stop edge: the client needs no tick *)
 Theorem C18_client_waits_have_stop_edge :
   forall (p : params) (sh : shape), params_ok p = true ->
-  forall ph, aborted_phase ph = true -> bnd (client p sh ph) = Some 0.
+  forall ph, aborted_phase sh ph = true -> bnd (client p sh ph) = Some 0.
 Proof. exact client_instant_lemma. Qed.
 Print Assumptions C18_client_waits_have_stop_edge.
 
@@ -39,7 +40,7 @@ Print Assumptions C18_client_waits_have_stop_edge.
    latency and I/O, and Destroy returns because the feeder has stopped, not through its deadline *)
 Theorem C18_stop_instant :
   forall (p : params) (sh : shape), params_ok p = true ->
-  forall ph t, aborted_phase ph = true -> worker_live sh = true -> has_dir sh = true ->
+  forall ph t, aborted_phase sh ph = true -> worker_live sh = true -> has_dir sh = true ->
   runs (agent p sh ph) 0 t -> t = Some 0.
 Proof. exact stop_instant_lemma. Qed.
 Print Assumptions C18_stop_instant.
@@ -71,27 +72,31 @@ Theorem C18_client_never_stuck_after_stop :
 Proof. exact client_stop_progress_lemma. Qed.
 Print Assumptions C18_client_never_stuck_after_stop.
 
-(* a session opened after the abort-on-stop callback has run is not aborted by the stop: its sends are bounded by
-   their deadline only *)
-Theorem C18_late_session_bound :
-  forall (p : params) (sh : shape), params_ok p = true ->
+(* the ORIGINAL code (late_abort = false): a session that became active after the abort-on-stop callback had run was
+   not aborted by the stop: its sends were bounded by their deadline only.  Finding C18-late-session, fixed. *)
+Theorem C18_late_session_bound_before_fix :
+  forall (p : params) (sh : shape), params_ok p = true -> late_abort sh = false ->
   bnd (client p sh PSendingLate) = Some (t_send p) /\
   bnd (client p sh PConnectingLate) = Some (Z.of_nat (n_left sh) * t_send p).
 Proof. exact client_late_lemma. Qed.
-Print Assumptions C18_late_session_bound.
+Print Assumptions C18_late_session_bound_before_fix.
 
-(* nothing_only_in_memory, PARTIAL: it is the conjunction of (a) the feeder stops before Destroy's deadline -
-   proved above for the aborted session (0 ticks), and for any client whose bound is below runTimeout - and (b) the
-   buffer's conservation at the moment the feeder has stopped (C19_buffer_after_destroy / the invariant below):
-   nothing is left in the queues or with the consumer and every chunk still pending has been saved to a file.
-   What is missing: a proof that (a) holds for the late session - it does not, see the refuted instance. *)
+(* nothing_only_in_memory: (a) for every place the real client can be at the stop (aborted_phase: all but the
+   consumer that never finishes, given the repair) the feeder stops 0 ticks after Destroy released it - before Destroy's
+   deadline -, so Destroy returns because the feeder has stopped: C18_feeder_bounded_by_client with c = 0;
+   (b) at that moment (the buffer invariant of C19) nothing is left in the queues or with the consumer, and every
+   chunk still pending has been saved to a file (or was counted dropped when the write was refused).
+   PARTIAL: file writes are modelled as returning (no disk stall), and a consumer that never finishes is excluded. *)
 Theorem C18_nothing_only_in_memory_partial :
-  forall cfg n0 evs s, b_run cfg (b_init n0) evs = Some s -> b_phase s = BDone ->
-  b_queue s = [] /\ b_hand s = None /\ b_window s = [] /\ b_held s = [] /\
-  all_saved (b_parked s) /\ m_pending (b_m s) = zlen (b_parked s).
-Proof. exact buffer_done_locations_lemma. Qed.
+  (forall (p : params) (sh : shape), params_ok p = true ->
+   forall ph s t, aborted_phase sh ph = true -> runs (feeder p sh ph) s t -> t = Some s) /\
+  (forall cfg n0 evs s, b_run cfg (b_init n0) evs = Some s -> b_phase s = BDone ->
+   b_queue s = [] /\ b_hand s = None /\ b_window s = [] /\ b_held s = [] /\
+   all_saved (b_parked s) /\ m_pending (b_m s) = zlen (b_parked s)).
+Proof. exact (conj feeder_at_once_lemma buffer_done_locations_lemma). Qed.
 Print Assumptions C18_nothing_only_in_memory_partial.
 
+(* before the repair, with the production constants: the late session alone could need longer than Destroy's deadline *)
 Theorem C18_late_session_exceeds_destroy_deadline_refuted :
   exists c, bnd (client prod_params prod_shape PConnectingLate) = Some c /\ run_timeout prod_params prod_shape < c.
 Proof. exact late_session_exceeds_destroy_deadline_lemma. Qed.
@@ -99,8 +104,9 @@ Print Assumptions C18_late_session_exceeds_destroy_deadline_refuted.
 
 (* non-vacuity: the production constants satisfy the hypotheses; B = 600 s for 2 outputs per pipeline *)
 Theorem C18_example :
-  params_ok prod_params = true /\ B prod_params prod_shape = 600 /\
-  bnd (agent prod_params prod_shape PSending) = Some 0 /\
-  bnd (agent prod_params prod_shape PStuck) = Some 600.
+  params_ok prod_params = true /\ B prod_params prod_shape_repaired = 600 /\
+  bnd (agent prod_params prod_shape_repaired PSending) = Some 0 /\
+  bnd (agent prod_params prod_shape_repaired PConnectingLate) = Some 0 /\
+  bnd (agent prod_params prod_shape_repaired PStuck) = Some 600.
 Proof. exact prod_example_lemma. Qed.
 Print Assumptions C18_example.
